@@ -17,6 +17,7 @@
  *          short time; c2 = 1: likewise for A while B is held)
  * stdout: A=<rc:val|BLK:-> B=.. G=.. st=<state> dat=<payload> lk=<lock bit> rec=<record present> E=[tids] FE=[tids] FF=[tids]
  *         orphan=<a blocked task is on no list of the table's record> stuck=<a task neither returned nor blocked>
+ *         early=<B reached its hold point / its end while A was held> adone=<A reached its end while B was held>
  *         atA= atB=<kind of the access the task was held at> seqA= seqB=<the task's interposed accesses, run-length encoded>
  *         After a line with stuck=1 the process exits (a worker is spinning for ever); the caller restarts it.
  */
@@ -243,9 +244,11 @@ int main(void)
         B->start = 1;
         { double t0 = now(), lim = c1 ? 0.03 : stuck_after;     /* c1: B is expected to wait for a lock A holds */
           while (!HD[1].paused && !settled(B)) { if (now() - t0 > lim) { if (!c1) stuck = 1; break; } sched_yield(); } }
+        int b_early = HD[1].paused || settled(B);                /* B got to its hold point / its end while A was held */
         HD[0].go = 1;
         { double t0 = now(), lim = c2 ? 0.03 : stuck_after;     /* c2: A is expected to wait for a lock B holds */
           while (!settled(A) && !stuck) { if (now() - t0 > lim) { if (!c2) stuck = 1; break; } sched_yield(); } }
+        int a_done3 = settled(A);                                /* A got to its end while B was held */
         HD[1].go = 1;
         for (int round = 0; round < 3 && !stuck; round++) {    /* a call that returns may release another task */
             if (!wait_settled(A, stuck_after)) stuck = 1;
@@ -263,7 +266,7 @@ int main(void)
             for (int i = 0; i < 3; i++) if (PT[i] && !PT[i]->done && !on[i]) orphan = 1;
             printf("rec=%d %sorphan=%d ", present, b, orphan);
         }
-        printf("stuck=%d atA=%s atB=%s seqA=", stuck, HD[0].kind >= 0 ? sp_name[HD[0].kind] : "-", HD[1].kind >= 0 ? sp_name[HD[1].kind] : "-");
+        printf("stuck=%d early=%d adone=%d atA=%s atB=%s seqA=", stuck, b_early, a_done3, HD[0].kind >= 0 ? sp_name[HD[0].kind] : "-", HD[1].kind >= 0 ? sp_name[HD[1].kind] : "-");
         show_seq(&HD[0]); printf(" seqB="); show_seq(&HD[1]);
         printf("\n");
         fflush(stdout);
